@@ -335,8 +335,6 @@ def _check(case, v):
             with DIP(env, name=f"c14_{next(_uid)}") as p2:
                 p2.add_string(stage2)
                 env = p2.parse()
-        tup = env.data(Format.TUPLE)
-        typ = env.data(Format.TYPE)
     except Exception as e:
         if case["fail"]:
             v.nt(True)
@@ -345,6 +343,14 @@ def _check(case, v):
                 v.label("constant_set_below_a_modification")
             return
         return v.fail("parse-raised", f"raised {e!r} for:\n{text}")
+    try:
+        # parse() returned: the environment must be readable (a refusal has to come from parse(), not from data())
+        tup = env.data(Format.TUPLE)
+        typ = env.data(Format.TYPE)
+    except Exception as e:
+        return v.fail("invalid-accepted" if case["fail"] else "unreadable",
+                      f"parse() returned an environment whose data() raises {e!r}"
+                      + (f" (the program is invalid: {case['fail']})" if case["fail"] else "") + f":\n{text}")
     if case["fail"] and not (case["fail"] == "literal" and case["kind"] == "str"):
         return v.fail("invalid-accepted", f"invalid program ({case['fail']}) was accepted, {path} = {tup.get(path)!r}:\n{text}")
     keys = list(tup)
